@@ -22,6 +22,8 @@ pub uninterp spec fn RGAS() -> real;
 pub open spec fn rabs(x: real) -> real { if x >= 0real { x } else { -x } }
 pub open spec fn rmax(a: real, b: real) -> real { if a >= b { a } else { b } }
 pub open spec fn rmin(a: real, b: real) -> real { if a <= b { a } else { b } }
+pub open spec fn imax(a: int, b: int) -> int { if a >= b { a } else { b } }
+pub open spec fn imin(a: int, b: int) -> int { if a <= b { a } else { b } }
 pub open spec fn rsignum(x: real) -> real { if x >= 0real { 1real } else { -1real } }
 pub open spec fn rsum(n: int, f: spec_fn(int) -> real) -> real
     decreases n
